@@ -792,6 +792,18 @@ func (fv *FV) initObject(r string, ty types.Type, st *types.Struct, x *ast.Compo
 
 func (fv *FV) sliceExpr(x *ast.SliceExpr, cx *Cx) TV {
 	s := fv.expr(x.X, cx)
+	if s.S == SStr && !x.Slice3 {
+		// substring s[lo:hi] (byte offsets): an uninterpreted function of the string and the bounds; only its length is known
+		lo, hi := "0", sx("str_len", s.T)
+		if x.Low != nil {
+			lo = fv.expr(x.Low, cx).T
+		}
+		if x.High != nil {
+			hi = fv.expr(x.High, cx).T
+		}
+		fv.safety(cx.st, and(sx("<=", "0", lo), sx("<=", lo, hi), sx("<=", hi, sx("str_len", s.T))), "slice bounds: "+exprText(x), x.Pos(), cx)
+		return TV{T: sx("str_sub", s.T, lo, hi), Ty: s.Ty, S: SStr}
+	}
 	if _, ok := types.Unalias(s.Ty).Underlying().(*types.Slice); !ok {
 		panic(refuse("slicing of %v", s.Ty))
 	}
